@@ -6,6 +6,8 @@ require (
 	github.com/LiskHQ/lisk-engine v0.0.0
 	github.com/anishathalye/porcupine v1.3.0
 	github.com/cockroachdb/pebble v0.0.0-20221021145029-f34af25a0187
+	github.com/libp2p/go-libp2p v0.32.2
+	github.com/multiformats/go-multiaddr v0.12.0
 	go.etcd.io/gofail v0.2.0
 )
 
@@ -51,7 +53,6 @@ require (
 	github.com/libp2p/go-buffer-pool v0.1.0 // indirect
 	github.com/libp2p/go-cidranger v1.1.0 // indirect
 	github.com/libp2p/go-flow-metrics v0.1.0 // indirect
-	github.com/libp2p/go-libp2p v0.32.2 // indirect
 	github.com/libp2p/go-libp2p-asn-util v0.3.0 // indirect
 	github.com/libp2p/go-libp2p-pubsub v0.10.0 // indirect
 	github.com/libp2p/go-msgio v0.3.0 // indirect
@@ -68,7 +69,6 @@ require (
 	github.com/mr-tron/base58 v1.2.0 // indirect
 	github.com/multiformats/go-base32 v0.1.0 // indirect
 	github.com/multiformats/go-base36 v0.2.0 // indirect
-	github.com/multiformats/go-multiaddr v0.12.0 // indirect
 	github.com/multiformats/go-multiaddr-dns v0.3.1 // indirect
 	github.com/multiformats/go-multiaddr-fmt v0.1.0 // indirect
 	github.com/multiformats/go-multibase v0.2.0 // indirect
